@@ -1,13 +1,14 @@
 #!/bin/bash
-# usage: try_seeded.sh <seeded dir name> [seeds...]   — applies seeded/<name>/patch.diff in a scratch worktree and runs the property's quick check
-n=$1; shift; seeds=${@:-1}
-P=$(jq -r .property /verif/seeded/$n/meta.json)
-wt=/tmp/trywt_$n
+# usage: tools/try_seeded.sh <seeded-name> [tier] [seed]  — runs the registered check of the seeded change's property against a scratch
+# worktree with the change applied, from a PRIVATE copy of /verif (nothing in /verif is rewritten); prints the verdict lines.
+set -u
+name=$1; tier=${2:-quick}; seed=${3:-1}
+V=$(cd "$(dirname "$0")/.." && pwd)
+pid=$(python3 -c "import json;print(json.load(open('$V/seeded/$name/meta.json'))['property'])")
+wt=/tmp/trywt_$name; priv=/tmp/tryvf_$name
 git -C /repo worktree remove --force $wt >/dev/null 2>&1
-git -C /repo worktree add --detach $wt HEAD >/dev/null 2>&1
-git -C $wt apply /verif/seeded/$n/patch.diff || { echo "patch does not apply"; exit 2; }
-for s in $seeds; do
-  (cd /verif && VERIF_SEED=$s VERIF_REPO=$wt python3 tools/check.py $P ${TIER:+--tier $TIER} 2>&1 | grep -E "VIOLATION|failing input|broken obligation|\] B |\] C probe|done rc" | cut -c1-260 | sed "s/^/[$n seed $s] /")
-done
-git -C /repo worktree remove --force $wt
-git -C /verif checkout -- lean/RomeaModel/Generated 2>/dev/null
+git -C /repo worktree add --detach $wt HEAD >/dev/null 2>&1 || exit 2
+git -C $wt apply $V/seeded/$name/patch.diff || { echo "patch does not apply"; git -C /repo worktree remove --force $wt; exit 2; }
+rm -rf $priv; rsync -a --exclude .git --exclude replays $V/ $priv/
+(cd $priv && VERIF_SEED=$seed VERIF_REPO=$wt python3 tools/check.py $pid --tier $tier 2>&1 | grep -E "^\[$pid\] (A|B|C|done)|VIOLATION|failing input|broken obligation" | cut -c1-300)
+git -C /repo worktree remove --force $wt; rm -rf $priv
